@@ -368,10 +368,10 @@ func init() {
 			return []string{"tie:endpoint_on_corner", "tie:endpoint_on_vertical_border", "tie:endpoint_on_horizontal_border", "tie:edge_along_vertical_border", "tie:edge_along_horizontal_border",
 				"tie:edge_through_corner_diagonal", "tie:edge_through_corner_antidiagonal", "tie:degenerate_hot_set", "polygon_level_cases_without_collapse", "exh:window"}
 		},
-		MinNonTriv: 1000,
-		Exhaustive: map[string]string{"exh:window": "all ordered segments with endpoints on the 13x13 quarter-pixel lattice of a 3x3-pixel window x every subset of the window's other pixels as extra hot pixels x 3 grid depths x 4 window alignments (thorough: complete; quick: the 1/24 slice selected by the seed)"},
+		MinNonTriv:  1000,
+		Exhaustive:  map[string]string{"exh:window": "all ordered segments with endpoints on the 13x13 quarter-pixel lattice of a 3x3-pixel window x every subset of the window's other pixels as extra hot pixels x 3 grid depths x 4 window alignments (thorough: complete; quick: the 1/24 slice selected by the seed)"},
 		Assumptions: []string{"hot pixels are those of the inserted points at that level", "coordinates on the tool's 1e-10 integer grid"},
-		Technique:  "runtime monitor: exact routing reference model vs SnapClosestPoints / SnapPolygon",
-		FlushEvery: 20000,
+		Technique:   "runtime monitor: exact routing reference model vs SnapClosestPoints / SnapPolygon",
+		FlushEvery:  20000,
 	})
 }
